@@ -312,7 +312,7 @@ func TestVerif_C02_LateResponse(t *testing.T) {
 			vr.Label("inconclusive:warm-forward")
 			return
 		}
-		delay := c.Timeout + c.Extra // per write; the client re-arms its deadline for each part of the response
+		delay := c.Timeout + c.Extra                 // per write; the client re-arms its deadline for each part of the response
 		cl.Net.SetDelayOneWay(l.Name, f.Name, delay) // only what the leader sends to F is slow: requests arrive, responses are late
 		timedOut := 0
 		var desc []string
@@ -372,6 +372,159 @@ func TestVerif_C02_LateResponse(t *testing.T) {
 		}
 		vr.LabelN("forwarded-reads-timed-out", timedOut)
 		vr.Case(timedOut > 0 && gotRows > 0, c.String())
+		vr.Sample(fmt.Sprintf("%s :: %s", c, strings.Join(desc, "; ")))
+	})
+}
+
+// ---------------------------------------------------------------------------
+// TestVerif_C02_CleanClose -- a forwarded write whose inter-node connection is
+// closed CLEANLY by the leader's side (FIN: the forwarding node reads io.EOF)
+// after the leader has read and executed the command and before the response
+// gets back; connectivity stays up, so a re-send would succeed. Follower F
+// forwards counter increments through Proxy.Execute / Proxy.Request; the leader's
+// responses to F are delayed one-way, and at a generated moment inside that
+// delay the leader-side end of the connection is closed.
+//
+// Oracle: after every step and at the end, acknowledged <= counter <= invoked
+// (an increment takes effect at most once, an acknowledged one exactly once).
+
+type closeCase struct {
+	Follower int
+	Delay    time.Duration   // one-way write delay L->F
+	CloseAt  []time.Duration // per increment: when to close after the call started (0 = do not close)
+	Req      []bool
+}
+
+func (c closeCase) String() string {
+	return fmt.Sprintf("follower=%d delay=%v closeAt=%v req=%v", c.Follower, c.Delay, c.CloseAt, c.Req)
+}
+
+func TestVerif_C02_CleanClose(t *testing.T) {
+	vnode.QuietLogs()
+	vr := vstat.New(t, "C02", "cleanclose",
+		"rapid: 3 voters; 4-8 sequential increments forwarded by one follower (Execute|Request), leader->follower write delay 200|300|400 ms, per increment the leader-side end of the forwarding connection is closed cleanly 20-80% into the delay (or not at all); "+
+			"non-trivial = at least one forwarded increment had its connection closed while the response was owed; distinct = the tuple")
+	rapid.Check(t, func(rt *rapid.T) {
+		c := closeCase{Follower: rapid.IntRange(0, 1).Draw(rt, "follower"),
+			Delay: time.Duration([]int{200, 300, 400}[rapid.IntRange(0, 2).Draw(rt, "delay")]) * time.Millisecond}
+		n := rapid.IntRange(4, 8).Draw(rt, "n")
+		for i := 0; i < n; i++ {
+			pct := []int{0, 20, 35, 50, 65, 80}[rapid.IntRange(0, 5).Draw(rt, "closepct")]
+			c.CloseAt = append(c.CloseAt, c.Delay*time.Duration(pct)/100)
+			c.Req = append(c.Req, rapid.Bool().Draw(rt, "req"))
+		}
+		dir, err := os.MkdirTemp("", "c02c-")
+		if err != nil {
+			vr.Label("inconclusive:tempdir")
+			return
+		}
+		defer os.RemoveAll(dir)
+		wd := stuckDump("c02c")
+		defer wd.Stop()
+		opts := vnode.Fast()
+		opts.Heartbeat, opts.Election, opts.LeaderLease = 2*time.Second, 2*time.Second, 2*time.Second
+		cl := vnode.NewCluster(dir, opts)
+		defer cl.Close()
+		if err := cl.Form(3, 0); err != nil {
+			vr.Label("inconclusive:form")
+			return
+		}
+		l := cl.WaitLeader(waitLong)
+		if l == nil {
+			vr.Label("inconclusive:no-leader")
+			return
+		}
+		var fs []*vnode.Node
+		for _, nn := range cl.Nodes {
+			if nn != l {
+				fs = append(fs, nn)
+			}
+		}
+		f := fs[c.Follower]
+		ctx := context.Background()
+		if resp, _, err := l.Store.Execute(ctx, vnode.Exec("CREATE TABLE r(k INTEGER PRIMARY KEY, v INTEGER)", "INSERT INTO r VALUES(2,0)")); err != nil || vnode.ExecErr(resp) != "" {
+			vr.Label("inconclusive:setup")
+			return
+		}
+		counter := func() (int64, bool) {
+			wl := cl.WaitLeader(waitLong)
+			if wl == nil {
+				return 0, false
+			}
+			rows, _, _, err := wl.Store.Query(ctx, vnode.QueryReq(proto.ConsistencyLevel_STRONG, "SELECT v FROM r WHERE k=2"))
+			if err != nil {
+				return 0, false
+			}
+			var v int64
+			if _, err := fmt.Sscan(vnode.RowsString(rows), &v); err != nil {
+				return 0, false
+			}
+			return v, true
+		}
+		const sql = "UPDATE r SET v=v+1 WHERE k=2"
+		incr := func(req bool) error {
+			if req {
+				resp, _, _, _, err := f.Proxy.Request(ctx, vnode.EQReq(proto.ConsistencyLevel_WEAK, sql), nil, 5*time.Second, 0, false)
+				if err == nil && vnode.ExecErr(resp) != "" {
+					err = fmt.Errorf("%s", vnode.ExecErr(resp))
+				}
+				return err
+			}
+			resp, _, _, err := f.Proxy.Execute(ctx, vnode.Exec(sql), nil, 5*time.Second, 0, false)
+			if err == nil && vnode.ExecErr(resp) != "" {
+				err = fmt.Errorf("%s", vnode.ExecErr(resp))
+			}
+			return err
+		}
+		// warm forwarded increment: the follower's pool now holds a connection
+		invoked, acked := int64(0), int64(0)
+		invoked++
+		if err := incr(false); err != nil {
+			vr.Label("inconclusive:warm-forward")
+			return
+		}
+		acked++
+		cl.Net.SetDelayOneWay(l.Name, f.Name, c.Delay)
+		closedOwed := 0
+		var desc []string
+		for i := range c.CloseAt {
+			if cl.LeaderNow() != l {
+				vr.Label("inconclusive:leadership-moved")
+				break
+			}
+			done := make(chan error, 1)
+			invoked++
+			go func(i int) { done <- incr(c.Req[i]) }(i)
+			nClosed := 0
+			if c.CloseAt[i] > 0 {
+				time.Sleep(c.CloseAt[i])
+				nClosed = cl.Net.CloseAccepted(l.Name, f.Name)
+			}
+			err := <-done
+			if err == nil {
+				acked++
+			}
+			if nClosed > 0 {
+				closedOwed++
+			}
+			desc = append(desc, fmt.Sprintf("incr#%d closeAt=%v closedConns=%d err=%v", i, c.CloseAt[i], nClosed, err))
+			if v, ok := counter(); ok && (v > invoked || v < acked) {
+				sig := "C02/increment-applied-more-than-once"
+				if v < acked {
+					sig = "C02/acknowledged-increment-lost"
+				}
+				msg := fmt.Sprintf("counter = %d after %d invoked / %d acknowledged forwarded increments; the leader-side end of the forwarding connection was closed cleanly while responses were owed (connectivity never cut); steps: %s; case %s",
+					v, invoked, acked, strings.Join(desc, "; "), c)
+				if vr.KnownHit(sig, msg) {
+					return
+				}
+				rt.Fatalf("%s", vr.Violation(sig, "%s", msg))
+			}
+		}
+		vr.LabelN("increments-with-connection-closed", closedOwed)
+		vr.LabelN("increments-acknowledged", int(acked))
+		vr.LabelN("increments-unknown", int(invoked-acked))
+		vr.Case(closedOwed > 0, c.String())
 		vr.Sample(fmt.Sprintf("%s :: %s", c, strings.Join(desc, "; ")))
 	})
 }
